@@ -42,7 +42,7 @@ PA_JOBS = 8
 
 # which GenEquiv files belong to a property.  Default: <pid>_gen.v when it exists.
 PID_FILES = {
-    'C01': ['C01_gen.v'], 'C02': ['C02_gen.v'], 'C03': ['C03_gen.v'], 'C06': ['C06_gen.v'], 'C07': ['C07_gen.v'],
+    'C01': ['C01_gen.v'], 'C02': ['C02_gen.v'], 'C03': ['C03_gen.v'], 'C06': ['C06_gen.v', 'C18_gen.v'], 'C07': ['C07_gen.v'],
     'C08': ['C08_gen.v'], 'C13': ['C13_gen.v'], 'C14': ['C14_gen.v'], 'C15': ['C15_gen.v'], 'C16': ['C16_gen.v'],
     'C18': ['C18_gen.v'],
     'C04': ['C01_gen.v', 'C02_gen.v', 'C03_gen.v'],   # C04 composes C01 (thresholds, chain validators), C02 (msgsCoverRange / computeMerkleRoot / Limit), C03 (NextState)
